@@ -93,6 +93,15 @@ def act_att(c):
     return dict(c, attachments=a)
 
 
+def act_replace(c):
+    """The cell is deleted and an unrelated new cell (own id) is put in its place: what a differ also reports when a cell of an id-less notebook is
+    rewritten beyond recognition.  Still a change to this cell only."""
+    n = U.code_cell("brand_new = {'unrelated': True}\nprint(brand_new)\n")
+    if 'id' in c:
+        n['id'] = 'new-' + c['id']
+    return n
+
+
 DELETE = object()
 
 
@@ -101,8 +110,8 @@ def act_delete(c):
 
 
 ACTIONS = [('src', act_src), ('src-last', act_src_last), ('rewrite', act_rewrite), ('out', act_out), ('out-clear', act_out_clear),
-           ('meta', act_meta), ('ec', act_ec), ('rerun', act_rerun), ('att', act_att), ('delete', act_delete)]
-QUICK_ACTIONS = ('src', 'rewrite', 'out', 'meta', 'ec', 'rerun', 'att', 'delete')
+           ('meta', act_meta), ('ec', act_ec), ('rerun', act_rerun), ('att', act_att), ('replace', act_replace), ('delete', act_delete)]
+QUICK_ACTIONS = ('src', 'rewrite', 'out', 'meta', 'ec', 'rerun', 'att', 'replace', 'delete')
 
 
 def bases(tier):
